@@ -5,7 +5,7 @@ WIDTHS = [1, 8, 16, 32, 64]
 ODD = [3, 7, 24, 128]
 NARY = ["+", "*", "&", "|", "^"]
 SHIFT = ["<<", ">>", "a>>", "<<<", ">>>"]
-DIVS = ["udiv", "umod", "sdiv", "smod"]
+DIVS = ["udiv", "umod", "sdiv", "smod", "/", "%"]
 CMP = ["==", "<u", "<=u", "<s", "<=s"]
 FLAG2 = ["FLAG_EQ_CMP", "FLAG_EQ_AND", "FLAG_SIGN_SUB", "FLAG_ADD_CF", "FLAG_ADD_OF", "FLAG_SUB_CF", "FLAG_SUB_OF"]
 FLAG3 = ["FLAG_ADDWC_CF", "FLAG_ADDWC_OF", "FLAG_SUBWC_CF", "FLAG_SUBWC_OF", "FLAG_EQ_ADDWC", "FLAG_EQ_SUBWC",
